@@ -23,7 +23,7 @@ def parseRat (t : String) : Option Rat :=
 def encRat (q : Rat) : String := s!"{q.num}/{q.den}"
 
 def parseOutcome : String → Option Outcome
-  | "S" => some .success | "N" => some .noop | "B" => some .backoffReq | "E" => some .exc | "X" => some .baseExc
+  | "S" => some .success | "N" => some .noop | "B" => some .backoffReq | "E" => some .exc | "X" => some .baseExc | "F" => some .noopThenFail
   | _ => none
 
 def stepRunSeq (toks : List String) : String :=
